@@ -477,6 +477,8 @@ def gen_program(st, flavour, tier):
             "store_skips": rk.random() < 0.5,
             "debug_log": rk.random() < 0.2,
             "observers": [], "targets": None, "graph_drop": [], "enable_cfg": None}
+    # a supplied value may be anything, None included (the engine goes by the presence of the key)
+    case["seed_none"] = sorted(i for i in case["seeded"] if rk.random() < 0.25)
     if sac:
         # the hydrated-archive path of dr.run(): the direct dependencies of pre-seeded components are dropped from the graph.
         # More pre-seeded values make it bite; a pre-seeded component must not be a direct dependency of another one (dr.run
@@ -486,6 +488,7 @@ def gen_program(st, flavour, tier):
             if any(j in seeded for j in dep_set(nodes[i])):
                 seeded.discard(i)
         case["seeded"] = sorted(seeded)
+        case["seed_none"] = [i for i in case["seed_none"] if i in seeded]
     if rk.random() < 0.3 and n > 1:
         case["targets"] = sorted(rp_.sample(range(n), rp_.randint(1, n)))
     if rk.random() < fl["graph_drop"] and n > 2:
@@ -755,7 +758,7 @@ def model(case, fixed_f1=True, pool_thread=False, prior=None, disabled=()):
         name = nd["name"]
         t = nd["type"]
         if i in seeded:
-            val[i] = ("seed", name)
+            val[i] = None if i in (case.get("seed_none") or ()) else ("seed", name)
             continue
         if i in had:
             continue
@@ -1098,7 +1101,7 @@ class World(object):
         if case.get("sac"):
             b[SerializedArchiveContext] = SerializedArchiveContext()
         for i in case["seeded"]:
-            b[self.objs[i]] = ("seed", case["nodes"][i]["name"])
+            b[self.objs[i]] = None if i in (case.get("seed_none") or ()) else ("seed", case["nodes"][i]["name"])
         if observers:
             for o, spec in self.local_observers:
                 b.add_observer(o, spec)
@@ -1375,7 +1378,8 @@ def execute_once(case, driver):
             for b in brokers:
                 for i in case["seeded"]:
                     o = world.objs[i]
-                    if o not in b or canon(b[o]) != ("seed", case["nodes"][i]["name"]):
+                    want = None if i in (case.get("seed_none") or ()) else ("seed", case["nodes"][i]["name"])
+                    if o not in b or canon(b[o]) != want:
                         r.seed_identity_ok = False
             r.ev = list(world.ev)
             r.pool = pool
@@ -1692,6 +1696,7 @@ def remove_node(case, k):
     if c.get("retag") is not None:
         c["retag"] = [dict(rt, node=rt["node"] - 1 if rt["node"] > k else rt["node"]) for rt in c["retag"] if rt["node"] != k]
     c["seeded"] = remap(c["seeded"])
+    c["seed_none"] = remap(c.get("seed_none") or [])
     if c["targets"] is not None:
         c["targets"] = remap(c["targets"]) or None
     c["graph_drop"] = remap(c.get("graph_drop") or [])
